@@ -51,3 +51,110 @@ Example C03_example_no_chunks :
   | _ => -2
   end = 13.
 Proof. vm_compute. reflexivity. Qed.
+
+(* ======================================================================================
+   Per-frame dispatch of a (non-relay) connection after the handshake: Model/PeerInput.v,
+   [handle_frame st hdr body] = one iteration of Connection.readFrames (ReadBody, dispatch by
+   message type, the handlers up to the point where they hand over to another goroutine).
+   ====================================================================================== *)
+From Verif Require Import Model.PeerInput Proofs.PeerFxP.
+
+(* for every connection state (any close state, any in-flight exchanges in any condition, any
+   send-queue occupancy, any resolution of a blocking forward) and ALL header / stream bytes:
+   none of the three panic sites of the per-frame path is reached, and the state stays sane *)
+Theorem C03_no_panic : forall st hdr body, state_ok st -> bytes_ok body = true ->
+  forall e, In e (snd (handle_frame st hdr body)) -> is_panic e = false.
+Proof. exact handle_frame_no_panic. Qed.
+
+Theorem C03_state_ok_preserved : forall st hdr body, state_ok st -> bytes_ok body = true ->
+  state_ok (fst (handle_frame st hdr body)).
+Proof. exact handle_frame_state_ok. Qed.
+
+(* ... hence for a whole byte stream handled frame after frame (the reader loop) *)
+Theorem C03_no_panic_stream : forall fuel st stream, state_ok st -> bytes_ok stream = true ->
+  forall es e, In es (snd (read_frames fuel st stream)) -> In e es -> is_panic e = false.
+Proof. exact read_frames_no_panic. Qed.
+
+(* a frame that is NOT (readable, well-formed and legal in the current state) has only the
+   three allowed effects -- dropped, at most one error frame, this connection shut down --,
+   no exchange is added or removed, and unless the connection is shut down nothing but the
+   send queue changes *)
+Theorem C03_effects : forall st hdr body st' es, state_ok st -> bytes_ok body = true ->
+  frame_wf_legal st hdr body = false -> handle_frame st hdr body = (st', es) ->
+  forallb allowed_effect es = true /\ (length (filter is_send es) <= 1)%nat /\
+  mx_keys (cs_in st') = mx_keys (cs_in st) /\ mx_keys (cs_out st') = mx_keys (cs_out st) /\
+  (existsb is_close es = false ->
+     cs_in st' = cs_in st /\ cs_out st' = cs_out st /\ cs_state st' = cs_state st /\ cs_stopped st' = cs_stopped st).
+Proof. exact handle_frame_effects. Qed.
+
+(* ... and that error frame carries the offending frame's id and code declined or protocol error *)
+Theorem C03_error_frame : forall st hdr body st' es, state_ok st -> bytes_ok body = true ->
+  frame_wf_legal st hdr body = false -> handle_frame st hdr body = (st', es) ->
+  forall mt i c, In (SendFrame mt i c) es ->
+    mt = c_messageTypeError /\ i = fh_id (fst (r_fheader (rb hdr))) /\ (c = c_ErrCodeDeclined \/ c = c_ErrCodeProtocol).
+Proof. exact handle_frame_error_frame_id. Qed.
+
+(* ANY frame, legal or not: an exchange whose id is not the frame's is left exactly as it
+   was, except that a shutdown of the connection sets its error latch *)
+Theorem C03_frame_local : forall st hdr body st' es code h payload rest, state_ok st -> bytes_ok body = true ->
+  handle_frame st hdr body = (st', es) -> frame_read_body hdr body = (code, h, payload, rest) ->
+  forall id', id' <> fh_id h ->
+    (mx_lookup id' (cs_in st') = mx_lookup id' (cs_in st) \/
+     (existsb is_close es = true /\ mx_lookup id' (cs_in st') = option_map mx_set_err (mx_lookup id' (cs_in st)))) /\
+    (mx_lookup id' (cs_out st') = mx_lookup id' (cs_out st) \/
+     (existsb is_close es = true /\ mx_lookup id' (cs_out st') = option_map mx_set_err (mx_lookup id' (cs_out st)))).
+Proof. exact handle_frame_local_unfolded. Qed.
+
+(* a call is dispatched only for a readable call req frame whose payload parseInboundFragment
+   accepts (flags, call req header, known checksum type, checksum), with an id that is not in
+   flight, on an Active connection whose exchanges have not been stopped; and then it is the
+   only effect.  (The argument chunks are parsed by the dispatched goroutine:
+   C03_fragment_no_panic above.) *)
+Theorem C03_dispatch_only_wellformed : forall st hdr body st' es i, state_ok st -> bytes_ok body = true ->
+  handle_frame st hdr body = (st', es) -> In (Dispatch i) es ->
+  exists h payload rest f, frame_read_body hdr body = (0, h, payload, rest) /\ fh_type h = c_messageTypeCallReq /\ fh_id h = i /\
+    parse_inbound_fragment payload = (0, f) /\
+    cs_state st = c_connectionActive /\ cs_stopped st = false /\ mx_lookup i (cs_in st) = None /\ es = [Dispatch i].
+Proof. exact handle_frame_dispatch. Qed.
+
+(* the reader goroutine never looks at the body of cancel and ping frames (so for these types
+   well-formedness is a matter of the header alone in [frame_legal]) *)
+Theorem C03_cancel_ping_body_ignored : forall st mt id p1 p2,
+  mt = c_messageTypeCancel \/ mt = c_messageTypePingReq \/ mt = c_messageTypePingRes ->
+  handle_frame_no_relay st mt id p1 = handle_frame_no_relay st mt id p2.
+Proof. exact cancel_ping_body_ignored. Qed.
+
+Print Assumptions C03_no_panic.
+Print Assumptions C03_no_panic_stream.
+Print Assumptions C03_effects.
+Print Assumptions C03_error_frame.
+Print Assumptions C03_frame_local.
+Print Assumptions C03_dispatch_only_wellformed.
+
+(* non-vacuity: concrete frames on concrete states *)
+Definition ex_hdr (size mt id : Z) : list Z := be 2 size ++ [mt; 0] ++ be 4 id ++ repeat 0 8.
+Definition ex_callreq : list Z :=   (* flags ttl:4 tracing:25 service~1 nh csumtype (len:2 chunk)* *)
+  [0; 0; 0; 39; 16] ++ repeat 0 25 ++ [1; 115; 0; 0; 0; 1; 109; 0; 0; 0; 0].
+Definition ex_active (ins : exmap) : cstate := mkCS c_connectionActive ins [] false 8 false.
+
+(* a valid call req with a fresh id is dispatched ... *)
+Example C03_example_dispatch :
+  snd (handle_frame (ex_active []) (ex_hdr (16 + zlen ex_callreq) 3 7) ex_callreq) = [Dispatch 7].
+Proof. vm_compute. reflexivity. Qed.
+(* ... the same frame while id 7 is in flight is a protocol error: error frame 0xff, connection shut down *)
+Example C03_example_duplicate :
+  snd (handle_frame (ex_active [(7, mx_new)]) (ex_hdr (16 + zlen ex_callreq) 3 7) ex_callreq)
+  = [SendFrame c_messageTypeError 7 c_ErrCodeProtocol; CloseConn]
+  /\ frame_wf_legal (ex_active [(7, mx_new)]) (ex_hdr (16 + zlen ex_callreq) 3 7) ex_callreq = false.
+Proof. vm_compute. split; reflexivity. Qed.
+(* ... on a closing connection it is declined with an error frame *)
+Example C03_example_declined :
+  snd (handle_frame (mkCS c_connectionStartClose [(5, mx_new)] [] false 8 false) (ex_hdr (16 + zlen ex_callreq) 3 7) ex_callreq)
+  = [SendFrame c_messageTypeError 7 c_ErrCodeDeclined].
+Proof. vm_compute. reflexivity. Qed.
+(* ... cut inside the call req header it is dropped; an unknown message type is dropped; a size field below the header size closes *)
+Example C03_example_dropped :
+  snd (handle_frame (ex_active []) (ex_hdr (16 + 33) 3 7) (firstn 33 ex_callreq)) = [Drop]
+  /\ snd (handle_frame (ex_active []) (ex_hdr 18 0x77 7) [1; 2]) = [Drop]
+  /\ snd (handle_frame (ex_active []) (ex_hdr 15 3 7) ex_callreq) = [CloseConn].
+Proof. vm_compute. repeat split; reflexivity. Qed.
